@@ -14,7 +14,7 @@ import (
 
 // graph: start -> OF -> (branch i: cond c_i) a_i -> OJ | end_i ; default branch (optional) ad -> OJ
 // OJ -> after -> end. ends: bit i set = branch i ends at its own end event instead of joining.
-func build(k int, withDefault bool, ends int) *drv.Graph {
+func build(k int, withDefault bool, ends int, implicit bool) *drv.Graph {
 	g := drv.NewGraph(fmt.Sprintf("og_k%d_d%v_e%d", k, withDefault, ends))
 	start := g.Add(drv.Start, "start")
 	of := g.Add(drv.OR, "OF")
@@ -27,8 +27,11 @@ func build(k int, withDefault bool, ends int) *drv.Graph {
 		a := g.Add(drv.Task, fmt.Sprintf("a%d", i))
 		g.Link(of, a, drv.Var(fmt.Sprintf("c%d", i)))
 		if ends&(1<<(i-1)) != 0 {
-			e := g.Add(drv.End, fmt.Sprintf("e%d", i))
-			g.Link(a, e, nil)
+			// implicit: the branch ends at a task without outgoing flow (BPMN's implicit end)
+			if !implicit {
+				e := g.Add(drv.End, fmt.Sprintf("e%d", i))
+				g.Link(a, e, nil)
+			}
 		} else {
 			g.Link(a, oj, nil)
 			joining++
@@ -48,8 +51,8 @@ func build(k int, withDefault bool, ends int) *drv.Graph {
 	return g
 }
 
-func scn(k int, withDefault bool, ends, bound int) *h.Scn {
-	g := build(k, withDefault, ends)
+func scn(k int, withDefault bool, ends, bound int, implicit bool) *h.Scn {
+	g := build(k, withDefault, ends, implicit)
 	if g == nil {
 		return nil
 	}
@@ -63,7 +66,11 @@ func scn(k int, withDefault bool, ends, bound int) *h.Scn {
 		ls := &drv.LockStep{Sig: "C05/incl", G: g, Defs: defs, Vars: vars}
 		ls.Body()()
 	}
-	sc := &h.Scn{Name: fmt.Sprintf("C05/incl/k%d/default=%v/ends=%04b/d%d", k, withDefault, ends, bound), Body: body, Opts: verifrt.Options{Bound: bound, UseCache: true}}
+	name := fmt.Sprintf("C05/incl/k%d/default=%v/ends=%04b/d%d", k, withDefault, ends, bound)
+	if implicit {
+		name = fmt.Sprintf("C05/incl/k%d/default=%v/implicit-ends=%04b/d%d", k, withDefault, ends, bound)
+	}
+	sc := &h.Scn{Name: name, Body: body, Opts: verifrt.Options{Bound: bound, UseCache: true}}
 	sc.Weight = (1 << k) * k * (1 + 3000*bound)
 	if bound >= 1 && k >= 2 {
 		sc.Split = 4
@@ -89,12 +96,15 @@ func init() {
 		for k := 1; k <= 4; k++ {
 			for _, def := range []bool{false, true} {
 				for ends := 0; ends < 1<<k; ends++ {
-					add(scn(k, def, ends, 0))
+					add(scn(k, def, ends, 0, false))
 					if k <= 2 || (thorough && k <= 3) {
-						add(scn(k, def, ends, 1))
+						add(scn(k, def, ends, 1, false))
 					}
 					if thorough && k <= 2 && ends <= 1 {
-						add(scn(k, def, ends, 2))
+						add(scn(k, def, ends, 2, false))
+					}
+					if ends != 0 && k <= 3 {
+						add(scn(k, def, ends, 0, true))
 					}
 				}
 			}
